@@ -1,7 +1,8 @@
 (* C13 — shape of the generated cases and the two executable verdicts. No proofs. *)
 From VLib Require Import CaseLib.
-From Coq Require Import ZArith.
-From C13 Require Import Model.
+From Coq Require Import List Bool Arith NArith ZArith.
+Import ListNotations.
+From C13 Require Import Model ModelBlock.
 
 Definition zlist_eqb := list_eqb Z.eqb.
 Definition blist_eqb := list_eqb bytes_eqb.
@@ -35,7 +36,102 @@ Inductive case :=
 (* real fraction holding exactly [tokens] (sorted, distinct) in one field: values returned by
    GetTIDsByTokenExpr of the active fraction and, after sealing, of the sealed one (sorted) *)
 | CFrac (keys : list (bytes * Z)) (tokens : list bytes)
-        (qs : list (query * (list bytes * list bytes))).
+        (qs : list (query * (list bytes * list bytes)))
+(* physical token block: data = real DiskTokensBlock.pack of every group, concatenated; real
+   Block.unpack(data) = res (0 ok, 1 error, 2 panic) with the offsets array; vals = real
+   GetValByTID for every token of every group (entry of group k: StartIndex = tokens before,
+   StartTID = tid0 + tokens before) *)
+| CBlock (groups : list (list bytes)) (tid0 : Z) (data : bytes) (res : Z) (offsets : bytes)
+         (vals : list (option bytes))
+(* real Block.unpack on arbitrary (malformed / truncated) bytes *)
+| CUnpackRaw (data : bytes) (res : Z) (offsets : bytes)
+(* real token.Provider over [entries] reading the physical blocks [disk] (index, bytes):
+   FirstTID/LastTID = ft/lt, GetToken call sequence with results. first/dict = the field's
+   dictionary as the harness generated it (TID first = dict[0]); eft/elt = the TID range the
+   harness selected *)
+| CProvider (entries : list tentry) (disk : list (Z * bytes)) (first : Z) (dict : list bytes)
+            (eft elt ft lt : Z) (calls : list (Z * bytes))
+(* real TokenList -> getTokensBlocksGenerator -> writeTokensBlocks: fields = (name, fieldSize,
+   sorted tokens) in field order; blocks pushed by the generator; table entries in push order;
+   physical blocks from index b0 *)
+| CWriter (fields : list (bytes * N * list bytes)) (b0 : Z) (blocks : list dblock)
+          (table : list (bytes * tentry)) (disk : list bytes)
+(* real TokenList: hash = worker of every token, hist = per Append (arrival order of the workers,
+   (token, field length) items); vals = tidToVal, fields = FieldTIDs, sizes = fieldSizes, prov =
+   per field (FirstTID, LastTID, Ordered) and GetToken(1..LastTID) of the active provider *)
+| CActive (hash : list (bytes * nat)) (hist : list (list nat * list (bytes * nat)))
+          (vals : list bytes) (fields : list (bytes * list Z)) (sizes : list (bytes * N))
+          (prov : list (bytes * (Z * Z * bool) * list (option bytes))).
+
+Definition obytes_eqb := option_eqb bytes_eqb.
+
+Definition tentry_eqb (a b : tentry) : bool :=
+  Z.eqb (e_start_index a) (e_start_index b) && Z.eqb (e_start_tid a) (e_start_tid b) &&
+  Z.eqb (e_block_index a) (e_block_index b) && Z.eqb (e_val_count a) (e_val_count b) &&
+  bytes_eqb (e_min_val a) (e_min_val b) && bytes_eqb (e_max_val a) (e_max_val b).
+Definition dblock_eqb (a b : dblock) : bool :=
+  bytes_eqb (d_field a) (d_field b) && Bool.eqb (d_start a) (d_start b) && N.eqb (d_total a) (d_total b) &&
+  Z.eqb (d_start_tid a) (d_start_tid b) && blist_eqb (d_tokens a) (d_tokens b).
+
+Definition group_entry (tid0 : Z) (before : nat) (n : nat) : tentry :=
+  {| e_start_index := Z.of_nat before; e_start_tid := tid0 + Z.of_nat before; e_block_index := 0;
+     e_val_count := Z.of_nat n; e_min_val := []; e_max_val := [] |}.
+
+(* model GetValByTID for every token of every group *)
+Fixpoint block_vals (data offs : bytes) (tid0 : Z) (before : nat) (groups : list (list bytes)) : list (option bytes) :=
+  match groups with
+  | [] => []
+  | g :: r =>
+      map (fun j => get_val W32 (group_entry tid0 before (length g)) data offs
+                            (tid0 + Z.of_nat before + Z.of_nat j)) (seq 0 (length g))
+      ++ block_vals data offs tid0 (before + length g) r
+  end.
+
+(* independent reading of a block: 4-byte little-endian fields decoded positionally *)
+Definition le32 (d : bytes) : N :=
+  (nth 0 d 0 + 256 * nth 1 d 0 + 65536 * nth 2 d 0 + 16777216 * nth 3 d 0)%N.
+Fixpoint naive_records (fuel : nat) (d : bytes) : option (list bytes) :=
+  match fuel with
+  | O => None
+  | S f =>
+      match d with
+      | [] => Some []
+      | _ => if length d <? 4 then None
+             else let l := le32 d in
+                  let r := skipn 4 d in
+                  if (l =? 4294967295)%N then naive_records f r
+                  else if length r <? N.to_nat l then None
+                  else option_map (cons (firstn (N.to_nat l) r)) (naive_records f (skipn (N.to_nat l) r))
+      end
+  end.
+Definition records (d : bytes) : option (list bytes) := naive_records (S (length d)) d.
+
+(* every 4-byte entry of the offsets array names a record inside data *)
+Fixpoint offsets_in_range (fuel : nat) (data offs : bytes) : bool :=
+  match fuel with
+  | O => false
+  | S f =>
+      match offs with
+      | [] => true
+      | _ => if length offs <? 4 then false
+             else let o := N.to_nat (le32 offs) in
+                  Nat.leb (o + 4) (length data) &&
+                  Nat.leb (o + 4 + N.to_nat (le32 (skipn o data))) (length data) &&
+                  offsets_in_range f data (skipn 4 offs)
+      end
+  end.
+
+Definition zget {V} (d : V) (k : Z) (m : list (Z * V)) : V :=
+  match find (fun p => Z.eqb (fst p) k) m with Some p => snd p | None => d end.
+
+Fixpoint dedup (l : list (bytes * nat)) : list (bytes * nat) :=
+  match l with
+  | [] => []
+  | x :: r => if existsb (fun y => bytes_eqb (fst x) (fst y)) r then dedup r else x :: dedup r
+  end.
+Fixpoint nodupb (l : list bytes) : bool :=
+  match l with [] => true | x :: r => negb (memb x r) && nodupb r end.
+Definition nat_list_eqb := list_eqb Nat.eqb.
 
 Definition kres_eqb (k : kres) (impl : Z) : bool :=
   match k with
@@ -74,6 +170,47 @@ Definition case_agrees (c : case) : bool :=
                                      && blist_eqb (vals_of 1 tokens s) (snd (snd qi))
                  | _, _ => false
                  end) qs
+  | CBlock groups tid0 data res offsets vals =>
+      bytes_eqb data (concat (map (pack_tokens W32) groups)) &&
+      match unpack W32 data with
+      | UOk o => Z.eqb res 0 && bytes_eqb o offsets &&
+                 list_eqb obytes_eqb (block_vals data o tid0 0 groups) vals
+      | UErr => Z.eqb res 1
+      | UPanic => Z.eqb res 2
+      | UFuel => false
+      end
+  | CUnpackRaw data res offsets =>
+      match unpack W32 data with
+      | UOk o => Z.eqb res 0 && bytes_eqb o offsets
+      | UErr => Z.eqb res 1
+      | UPanic => Z.eqb res 2
+      | UFuel => false
+      end
+  | CProvider entries disk first dict eft elt ft lt calls =>
+      Z.eqb ft (first_tid entries) && Z.eqb lt (last_tid_p entries) &&
+      match get_tokens W32 (fun i => zget [] i disk) entries p_init (map fst calls) with
+      | Some (vs, _) => blist_eqb vs (map snd calls)
+      | None => false
+      end
+  | CWriter fields b0 blocks table disk =>
+      match gen_blocks 16384 fields 1 with
+      | Some bl => list_eqb dblock_eqb bl blocks
+      | None => false
+      end &&
+      (let st := write_blocks W32 16384 b0 blocks in
+       list_eqb (pair_eqb bytes_eqb tentry_eqb) (ws_table st) table && blist_eqb (ws_done st) disk)
+  | CActive hash hist vals fields sizes prov =>
+      let st := tl_run (hash_of hash) tl_empty hist in
+      blist_eqb (tl_vals st) vals &&
+      Nat.eqb (length (tl_fields st)) (length fields) &&
+      forallb (fun fi => zlist_eqb (aget [] (fst fi) (tl_fields st)) (snd fi)) fields &&
+      Nat.eqb (length (tl_sizes st)) (length sizes) &&
+      forallb (fun fi => N.eqb (aget 0%N (fst fi) (tl_sizes st)) (snd fi)) sizes &&
+      forallb (fun p => match p with
+                        | (f, (ft, lt, ord), toks) =>
+                            Z.eqb ft 1 && Z.eqb lt (ap_last_tid st f) && negb ord &&
+                            list_eqb obytes_eqb (map (fun i => ap_get_token st f (Z.of_nat i)) (seq 1 (Z.to_nat lt))) toks
+                        end) prov
   end.
 
 (* implementation output satisfies the property (independent of the model's algorithms) *)
@@ -98,6 +235,63 @@ Definition case_spec_ok (c : case) : bool :=
       forallb (fun qi =>
                  let want := filter (spec_match (lookup keys) (fst qi)) tokens in
                  blist_eqb want (fst (snd qi)) && blist_eqb want (snd (snd qi))) qs
+  (* unpack succeeds and the value returned for every TID is the token the harness put there *)
+  | CBlock groups tid0 data res offsets vals =>
+      Z.eqb res 0 && list_eqb obytes_eqb vals (map Some (concat groups))
+  (* Ok: every recorded offset (and the record it names) lies inside the block. A panic (res = 2)
+     is reported by the driver itself (violations.jsonl, fingerprint panic:block-unpack-short-tail);
+     it is not judged a second time here *)
+  | CUnpackRaw data res offsets =>
+      if Z.eqb res 0 then offsets_in_range (S (length offsets)) data offsets
+      else Z.eqb res 1 || Z.eqb res 2
+  (* value returned for TID t = the t-th token of the dictionary the harness generated *)
+  | CProvider entries disk first dict eft elt ft lt calls =>
+      Z.eqb ft eft && Z.eqb lt elt &&
+      forallb (fun c => Z.leb eft (fst c) && Z.leb (fst c) elt && bytes_eqb (snd c) (tok first dict (fst c))) calls
+  (* blocks partition the fields' tokens in order without an empty block; every table entry
+     names a physical block whose records (read independently) hold the block's tokens at
+     StartIndex, with StartTID = 1 + number of tokens before and MaxVal = the last token *)
+  | CWriter fields b0 blocks table disk =>
+      blist_eqb (concat (map d_tokens blocks)) (concat (map (fun x => snd x) fields)) &&
+      forallb (fun b => negb (Nat.eqb (length (d_tokens b)) 0)) blocks &&
+      Nat.eqb (length table) (length blocks) &&
+      (fix go (tb : list (bytes * tentry)) (bl : list dblock) (before : nat) : bool :=
+         match tb, bl with
+         | (f, e) :: tb', b :: bl' =>
+             bytes_eqb f (d_field b) &&
+             Z.eqb (e_start_tid e) (1 + Z.of_nat before) && Z.eqb (d_start_tid b) (1 + Z.of_nat before) &&
+             Z.eqb (e_val_count e) (Z.of_nat (length (d_tokens b))) &&
+             bytes_eqb (e_max_val e) (last (d_tokens b) []) &&
+             Z.leb b0 (e_block_index e) && Z.leb 0 (e_start_index e) &&
+             match records (nth (Z.to_nat (e_block_index e - b0)) disk []) with
+             | Some recs => blist_eqb (firstn (length (d_tokens b)) (skipn (Z.to_nat (e_start_index e)) recs))
+                                      (d_tokens b)
+             | None => false
+             end &&
+             go tb' bl' (before + length (d_tokens b))
+         | [], [] => true
+         | _, _ => false
+         end) table blocks 0
+  (* every distinct token appended has exactly one TID; the TIDs of a field are exactly the
+     field's distinct tokens; the provider of a field hands out, for 1..LastTID, the values of the
+     field's TIDs in order; FirstTID = 1, LastTID = number of TIDs, Ordered = false *)
+  | CActive hash hist vals fields sizes prov =>
+      let all := dedup (flat_map (fun ab => snd ab) hist) in
+      Nat.eqb (length vals) (S (length all)) &&
+      Nat.eqb (length (flat_map (fun fi => snd fi) fields)) (length all) &&
+      forallb (fun fi =>
+                 let want := map value_of (filter (fun it => bytes_eqb (field_of it) (fst fi)) all) in
+                 let got := map (fun tid => nth (Z.to_nat tid) vals []) (snd fi) in
+                 forallb (fun tid => Z.ltb 0 tid && Z.ltb tid (Z.of_nat (length vals))) (snd fi) &&
+                 Nat.eqb (length got) (length want) && nodupb got && forallb (fun v => memb v want) got) fields &&
+      forallb (fun it => existsb (fun fi => bytes_eqb (fst fi) (field_of it)) fields) all &&
+      forallb (fun p => match p with
+                        | (f, (ft, lt, ord), toks) =>
+                            let tids := aget [] f fields in
+                            Z.eqb ft 1 && Z.eqb lt (Z.of_nat (length tids)) && negb ord &&
+                            list_eqb obytes_eqb toks (map (fun tid => Some (nth (Z.to_nat tid) vals [])) tids)
+                        end) prov &&
+      Nat.eqb (length prov) (length fields)
   end.
 
 Definition diff_indices (l : list case) : list nat := bad_indices (fun c => negb (case_agrees c)) l.
